@@ -555,15 +555,345 @@ Proof.
   rewrite (Hl2 x (or_introl eq_refl)). apply IH. intros k' Hin. apply Hl2. right. exact Hin.
 Qed.
 
-(* call_keywords can raise: subprocess.Popen('ls', stdin={[1]}) makes every has_shell caller crash *)
+(* a set display with an unhashable element no longer raises in call_keywords / call_args
+   (Context._get_literal_value skips such elements): subprocess.Popen('ls', stdin={[1]}) is scanned *)
 Definition ex_popen_unhashable_kw : ctx :=
   ex_ctx "subprocess.Popen"
          (ex_call [ex_str "ls"]
                   [ex_kw "stdin" (Node "Set" ex_pos [("elts", NList [ex_list [ex_const (CInt 1)]])])]).
-Example has_shell_raises :
-  has_shell ex_popen_unhashable_kw = Raise TypeError /\
-  b602 ex_cfg ex_popen_unhashable_kw = Raise TypeError /\
-  b603 ex_cfg ex_popen_unhashable_kw = Raise TypeError /\
-  b609 ex_cfg ex_popen_unhashable_kw = Raise TypeError /\
-  b604 ex_cfg ex_wrapper_true = Ok (Some (b604_issue ex_wrapper_true)).
+Example has_shell_unhashable_kw :
+  has_shell ex_popen_unhashable_kw = Ok false /\
+  b602 ex_cfg ex_popen_unhashable_kw = Ok None /\
+  b603 ex_cfg ex_popen_unhashable_kw = Ok (Some (b603_issue ex_popen_unhashable_kw)) /\
+  b607 ex_cfg ex_popen_unhashable_kw = Ok (Some b607_issue) /\
+  b609 ex_cfg ex_popen_unhashable_kw = Ok None.
+Proof. vm_compute. repeat split. Qed.
+
+(* ---------------------------------------------------------------------------------------------- *)
+(* Totality *)
+
+(* Context._get_literal_value never raises.  [lv_elts] is the inner `elts` computation of
+   [literal_value], restated so that it can be named. *)
+Definition lv_elts (fs : list (string * node)) : res (list pyval) :=
+  (fix find (l : list (string * node)) : res (list pyval) :=
+     match l with
+     | [] => Ok []
+     | (k, v) :: t =>
+         if String.eqb "elts" k then
+           match v with
+           | NList its =>
+               (fix go (is : list node) : res (list pyval) :=
+                  match is with
+                  | [] => Ok []
+                  | i :: is' => do x <- literal_value i;; do xs <- go is';; Ok (x :: xs)
+                  end) its
+           | _ => Ok []
+           end
+         else find t
+     end) fs.
+
+Definition lv_addall : list pyval -> list pyval -> res pyval :=
+  fix addall (l : list pyval) (acc : list pyval) : res pyval :=
+    match l with
+    | [] => Ok (PSet acc)
+    | v :: l' => if hashable v then addall l' (set_add_val v acc) else addall l' acc
+    end.
+
+Lemma literal_value_unfold c p fs :
+  literal_value (Node c p fs) =
+  if String.eqb c "Constant" then
+    match lookup_field "value" fs with
+    | Some (NConst k) => Ok (const_value k)
+    | _ => Ok PNone
+    end
+  else if String.eqb c "List" then do l <- lv_elts fs;; Ok (PList l)
+  else if String.eqb c "Tuple" then do l <- lv_elts fs;; Ok (PTuple l)
+  else if String.eqb c "Set" then do l <- lv_elts fs;; lv_addall l []
+  else if String.eqb c "Dict" then
+    Ok (PDict (combine (items (match lookup_field "keys" fs with Some k => k | None => NNone end))
+                       (items (match lookup_field "values" fs with Some k => k | None => NNone end))))
+  else if String.eqb c "Name" then
+    Ok (PStr (match lookup_field "id" fs with Some (NId s) => s | _ => [] end))
+  else Ok PNone.
+Proof. reflexivity. Qed.
+
+Lemma lv_addall_total l : forall acc, exists v, lv_addall l acc = Ok v.
+Proof.
+  induction l as [|x t IH]; intro acc; simpl.
+  - eexists; reflexivity.
+  - destruct (hashable x); apply IH.
+Qed.
+
+Definition lv_ok (n : node) : Prop := exists v, literal_value n = Ok v.
+Definition lv_ok_deep (n : node) : Prop :=
+  lv_ok n /\ match n with NList l => Forall lv_ok l | _ => True end.
+
+Definition lv_go : list node -> res (list pyval) :=
+  fix go (is : list node) : res (list pyval) :=
+    match is with
+    | [] => Ok []
+    | i :: is' => do x <- literal_value i;; do xs <- go is';; Ok (x :: xs)
+    end.
+
+Lemma lv_elts_cons k v t :
+  lv_elts ((k, v) :: t) =
+  if String.eqb "elts" k then match v with NList its => lv_go its | _ => Ok [] end else lv_elts t.
+Proof. reflexivity. Qed.
+
+Lemma lv_go_total its : Forall lv_ok its -> exists l, lv_go its = Ok l.
+Proof.
+  induction 1 as [|i is' [x Hx] His [xs Hxs]].
+  - eexists; reflexivity.
+  - change (lv_go (i :: is')) with (do x <- literal_value i;; do xs <- lv_go is';; Ok (x :: xs)).
+    rewrite Hx. cbn [bind]. rewrite Hxs. cbn [bind]. eexists; reflexivity.
+Qed.
+
+Lemma lv_elts_total fs :
+  Forall (fun kv => lv_ok_deep (snd kv)) fs -> exists l, lv_elts fs = Ok l.
+Proof.
+  induction 1 as [|[k v] t Hv Ht IH].
+  - eexists; reflexivity.
+  - rewrite lv_elts_cons. destruct (String.eqb "elts" k); [|exact IH].
+    destruct v as [c p fs'|its| | | |]; try (eexists; reflexivity).
+    destruct Hv as [_ Hits]. apply lv_go_total. exact Hits.
+Qed.
+
+Lemma literal_value_total_deep : forall n, lv_ok_deep n.
+Proof.
+  apply node_ind'.
+  - intros c p fs Hfs. split; [|exact I]. unfold lv_ok. rewrite literal_value_unfold.
+    destruct (lv_elts_total fs Hfs) as [l Hl]. rewrite Hl. cbn [bind].
+    destruct (String.eqb c "Constant").
+    { destruct (lookup_field "value" fs) as [[| |k| | |]|]; eexists; reflexivity. }
+    destruct (String.eqb c "List"); [eexists; reflexivity|].
+    destruct (String.eqb c "Tuple"); [eexists; reflexivity|].
+    destruct (String.eqb c "Set"); [apply lv_addall_total|].
+    destruct (String.eqb c "Dict"); [eexists; reflexivity|].
+    destruct (String.eqb c "Name"); eexists; reflexivity.
+  - intros l Hl. split; [eexists; reflexivity|].
+    induction Hl as [|x t [Hx _] Ht IH]; constructor; assumption.
+  - intro k. split; [eexists; reflexivity|exact I].
+  - intro s. split; [eexists; reflexivity|exact I].
+  - intro z. split; [eexists; reflexivity|exact I].
+  - split; [eexists; reflexivity|exact I].
+Qed.
+
+Theorem literal_value_never_raises : forall n, exists v, literal_value n = Ok v.
+Proof. intro n. exact (proj1 (literal_value_total_deep n)). Qed.
+
+Lemma arg_value_never_raises a : exists v, arg_value a = Ok v.
+Proof.
+  unfold arg_value. destruct (is_cls "Attribute" a); [eexists; reflexivity|apply literal_value_never_raises].
+Qed.
+
+Lemma mapM_total {A B} (f : A -> res B) :
+  (forall x, exists y, f x = Ok y) -> forall l, exists ys, mapM f l = Ok ys.
+Proof.
+  intros Hf l. induction l as [|x t [ys Hys]]; simpl.
+  - eexists; reflexivity.
+  - destruct (Hf x) as [y Hy]. rewrite Hy. cbn [bind]. rewrite Hys. cbn [bind]. eexists; reflexivity.
+Qed.
+
+Lemma mapM_length {A B} (f : A -> res B) l ys : mapM f l = Ok ys -> List.length ys = List.length l.
+Proof.
+  revert ys. induction l as [|x t IH]; simpl; intros ys H.
+  - inversion H; reflexivity.
+  - destruct (f x); simpl in H; [|discriminate]. destruct (mapM f t) as [ys'|]; simpl in H; [|discriminate].
+    inversion H; subst. simpl. f_equal. apply IH. reflexivity.
+Qed.
+
+Theorem call_args_never_raises : forall c, exists vs, call_args c = Ok vs.
+Proof.
+  intro c. unfold call_args. destruct (c_call c); [|eexists; reflexivity].
+  apply mapM_total. apply arg_value_never_raises.
+Qed.
+
+Theorem call_keywords_never_raises : forall c call,
+  c_call c = Some call -> exists d, call_keywords c = Ok (Some d).
+Proof.
+  intros c call H. unfold call_keywords. rewrite H.
+  destruct (mapM_total (fun k => do v <- arg_value (field "value" k);; Ok (kw_arg k, v))) with (l := field_list "keywords" call)
+    as [l Hl].
+  - intro k. destruct (arg_value_never_raises (field "value" k)) as [v Hv]. rewrite Hv. eexists; reflexivity.
+  - rewrite Hl. eexists; reflexivity.
+Qed.
+
+Lemma get_call_arg_at_position_never_raises c i : exists v, get_call_arg_at_position c i = Ok v.
+Proof.
+  unfold get_call_arg_at_position. destruct (c_call c) as [call|]; [|eexists; reflexivity].
+  cbv zeta. destruct (Nat.ltb i (List.length (field_list "args" call))); [|eexists; reflexivity].
+  destruct (is_cls "Attribute" (nth i (field_list "args" call) NNone)
+            && truthy_str (attr_of (nth i (field_list "args" call) NNone)));
+    [eexists; reflexivity|apply literal_value_never_raises].
+Qed.
+
+(* has_shell on a call context: the context carries a call and the node has a `keywords` field *)
+Theorem has_shell_never_raises : forall c call,
+  c_call c = Some call -> has_field "keywords" (c_node c) = true ->
+  exists b, has_shell c = Ok b.
+Proof.
+  intros c call Hcall Hkw. unfold has_shell. unfold has_field in Hkw.
+  destruct (field_opt "keywords" (c_node c)) as [kws|]; [|discriminate].
+  destruct (call_keywords_never_raises c call Hcall) as [d Hd]. rewrite Hd. cbn [bind].
+  destruct (kw_mem kw_shell d); eexists; reflexivity.
+Qed.
+
+(* A well-formed `shell_injection` configuration: a dict holding the three lists of strings. *)
+Definition is_jstr (j : jv) : bool := match j with JStr _ => true | _ => false end.
+Definition is_str_list (j : jv) : bool := match j with JList l => forallb is_jstr l | _ => false end.
+Definition wf_section (k : pstr) (cfg : jv) : bool :=
+  match jget k cfg with Some v => is_str_list v | None => false end.
+Definition wf_cfg (cfg : jv) : bool :=
+  match cfg with
+  | JDict _ => wf_section sec_subprocess cfg && wf_section sec_shell cfg && wf_section sec_no_shell cfg
+  | _ => false
+  end.
+
+Example wf_cfg_default : wf_cfg ex_cfg = true.
+Proof. vm_compute. reflexivity. Qed.
+
+(* the call contexts the visitor builds: the context's call is its node, a Call (it has `keywords`) *)
+Definition call_ctx (c : ctx) : Prop :=
+  c_call c = Some (c_node c) /\ has_field "keywords" (c_node c) = true.
+
+Example call_ctx_ex : call_ctx ex_popen_str_true.
+Proof. split; reflexivity. Qed.
+
+Lemma wf_cfg_sections cfg :
+  wf_cfg cfg = true ->
+  wf_section sec_subprocess cfg = true /\ wf_section sec_shell cfg = true /\ wf_section sec_no_shell cfg = true /\
+  exists kv, cfg = JDict kv.
+Proof.
+  unfold wf_cfg. destruct cfg; try discriminate. intro H.
+  apply andb_true_iff in H. destruct H as [H H3]. apply andb_true_iff in H. destruct H as [H1 H2].
+  repeat split; try assumption. eexists; reflexivity.
+Qed.
+
+Lemma in_section_total k cfg c :
+  (exists kv, cfg = JDict kv) -> wf_section k cfg = true -> exists m, in_section k cfg c = Ok m.
+Proof.
+  intros [kv ->] H. unfold wf_section in H. unfold in_section, cfg_section.
+  destruct (jget k (JDict kv)) as [v|]; [|discriminate]. cbn [bind].
+  destruct v; try discriminate. eexists; reflexivity.
+Qed.
+
+Lemma wf_cfg_in_sections cfg c :
+  wf_cfg cfg = true ->
+  (exists m, in_section sec_subprocess cfg c = Ok m) /\ (exists m, in_section sec_shell cfg c = Ok m) /\
+  (exists m, in_section sec_no_shell cfg c = Ok m).
+Proof.
+  intro H. destruct (wf_cfg_sections cfg H) as [H1 [H2 [H3 Hd]]].
+  repeat split; apply in_section_total; assumption.
+Qed.
+
+Lemma first_arg_of_call_args c vs :
+  c_call c = Some (c_node c) -> call_args c = Ok vs -> nonempty vs = true -> exists a0, first_arg c = Ok a0.
+Proof.
+  intros Hc Hca Hne. unfold call_args in Hca. rewrite Hc in Hca. apply mapM_length in Hca.
+  destruct (field_list "args" (c_node c)) as [|a0 rest] eqn:E.
+  - destruct vs; [discriminate|discriminate].
+  - exists a0. apply first_arg_spec. eauto.
+Qed.
+
+Theorem b602_never_raises : forall cfg c, wf_cfg cfg = true -> call_ctx c -> exists r, b602 cfg c = Ok r.
+Proof.
+  intros cfg c Hwf [Hcall Hkw]. unfold b602. destruct (cfg_truthy cfg); [|eexists; reflexivity].
+  destruct (wf_cfg_in_sections cfg c Hwf) as [[m Hm] _]. rewrite Hm. cbn [bind].
+  destruct m; [|eexists; reflexivity].
+  destruct (has_shell_never_raises c _ Hcall Hkw) as [b Hb]. rewrite Hb. cbn [bind].
+  destruct b; [|eexists; reflexivity].
+  destruct (call_args_never_raises c) as [vs Hvs]. rewrite Hvs. cbn [bind].
+  destruct (nonempty vs) eqn:Hne; [|eexists; reflexivity].
+  destruct (first_arg_of_call_args c vs Hcall Hvs Hne) as [a0 Ha]. unfold evaluate_shell_call. rewrite Ha.
+  eexists; reflexivity.
+Qed.
+
+Theorem b603_never_raises : forall cfg c, wf_cfg cfg = true -> call_ctx c -> exists r, b603 cfg c = Ok r.
+Proof.
+  intros cfg c Hwf [Hcall Hkw]. unfold b603. destruct (cfg_truthy cfg); [|eexists; reflexivity].
+  destruct (wf_cfg_in_sections cfg c Hwf) as [[m Hm] _]. rewrite Hm. cbn [bind].
+  destruct m; [|eexists; reflexivity].
+  destruct (has_shell_never_raises c _ Hcall Hkw) as [b Hb]. rewrite Hb. cbn [bind].
+  destruct b; eexists; reflexivity.
+Qed.
+
+Theorem b604_never_raises : forall cfg c, wf_cfg cfg = true -> call_ctx c -> exists r, b604 cfg c = Ok r.
+Proof.
+  intros cfg c Hwf [Hcall Hkw]. unfold b604. destruct (cfg_truthy cfg); [|eexists; reflexivity].
+  destruct (wf_cfg_in_sections cfg c Hwf) as [[m Hm] _]. rewrite Hm. cbn [bind].
+  destruct m; [eexists; reflexivity|].
+  destruct (has_shell_never_raises c _ Hcall Hkw) as [b Hb]. rewrite Hb. cbn [bind].
+  destruct b; eexists; reflexivity.
+Qed.
+
+Theorem b605_never_raises : forall cfg c, wf_cfg cfg = true -> call_ctx c -> exists r, b605 cfg c = Ok r.
+Proof.
+  intros cfg c Hwf [Hcall Hkw]. unfold b605. destruct (cfg_truthy cfg); [|eexists; reflexivity].
+  destruct (wf_cfg_in_sections cfg c Hwf) as [_ [[m Hm] _]]. rewrite Hm. cbn [bind].
+  destruct m; [|eexists; reflexivity].
+  destruct (call_args_never_raises c) as [vs Hvs]. rewrite Hvs. cbn [bind].
+  destruct (nonempty vs) eqn:Hne; [|eexists; reflexivity].
+  destruct (first_arg_of_call_args c vs Hcall Hvs Hne) as [a0 Ha]. unfold evaluate_shell_call. rewrite Ha.
+  eexists; reflexivity.
+Qed.
+
+(* B606 reads nothing but the configuration and the qualified name: total in every context *)
+Theorem b606_never_raises : forall cfg c, wf_cfg cfg = true -> exists r, b606 cfg c = Ok r.
+Proof.
+  intros cfg c Hwf. unfold b606. destruct (cfg_truthy cfg); [|eexists; reflexivity].
+  destruct (wf_cfg_in_sections cfg c Hwf) as [_ [_ [m Hm]]]. rewrite Hm. cbn [bind].
+  destruct m; eexists; reflexivity.
+Qed.
+
+Theorem b607_never_raises : forall cfg c, wf_cfg cfg = true -> call_ctx c -> exists r, b607 cfg c = Ok r.
+Proof.
+  intros cfg c Hwf [Hcall Hkw]. unfold b607. destruct (cfg_truthy cfg); [|eexists; reflexivity].
+  destruct (call_args_never_raises c) as [vs Hvs]. rewrite Hvs. cbn [bind].
+  destruct (nonempty vs) eqn:Hne; [|eexists; reflexivity].
+  destruct (wf_cfg_in_sections cfg c Hwf) as [[m1 H1] [[m2 H2] [m3 H3]]].
+  unfold in_any_section. rewrite H1. cbn [bind].
+  assert (Hany : exists m, (if m1 then Ok true
+                            else do b <- in_section sec_shell cfg c;;
+                                 if b then Ok true else in_section sec_no_shell cfg c) = Ok m).
+  { destruct m1; [eexists; reflexivity|]. rewrite H2. cbn [bind].
+    destruct m2; [eexists; reflexivity|]. rewrite H3. eexists; reflexivity. }
+  destruct Hany as [m Hm]. rewrite Hm. cbn [bind]. destruct m; [|eexists; reflexivity].
+  destruct (first_arg_of_call_args c vs Hcall Hvs Hne) as [a0 Ha]. rewrite Ha. cbn [bind].
+  destruct (is_partial_path (path_node a0)); eexists; reflexivity.
+Qed.
+
+Theorem b609_never_raises : forall cfg c, wf_cfg cfg = true -> call_ctx c -> exists r, b609 cfg c = Ok r.
+Proof.
+  intros cfg c Hwf [Hcall Hkw]. unfold b609.
+  destruct (wf_cfg_sections cfg Hwf) as [_ [_ [_ [kv Hkv]]]].
+  assert (Hok : exists ok, b609_cfg_ok cfg = Ok ok).
+  { subst cfg. unfold b609_cfg_ok. simpl. destruct (assoc sec_shell kv); eexists; reflexivity. }
+  destruct Hok as [ok Hok]. rewrite Hok. cbn [bind]. destruct ok; cbn [negb]; [|eexists; reflexivity].
+  destruct (wf_cfg_in_sections cfg c Hwf) as [[m1 H1] [[m2 H2] _]].
+  assert (Hap : exists ap, b609_applies cfg c = Ok ap).
+  { unfold b609_applies. rewrite H2. cbn [bind]. destruct m2; [eexists; reflexivity|].
+    rewrite H1. cbn [bind]. destruct m1; [|eexists; reflexivity].
+    apply (has_shell_never_raises c _ Hcall Hkw). }
+  destruct Hap as [ap Hap]. rewrite Hap. cbn [bind]. destruct ap; [|eexists; reflexivity].
+  unfold call_args_count. rewrite Hcall.
+  destruct (Nat.leb 1 (List.length (field_list "args" (c_node c)))); [|eexists; reflexivity].
+  destruct (get_call_arg_at_position_never_raises c 0) as [a Ha]. rewrite Ha. cbn [bind].
+  destruct (wildcard_hit (argument_string a)); eexists; reflexivity.
+Qed.
+
+(* what can still raise: a malformed configuration, or a context no visitor builds *)
+Example still_raises_bad_cfg :
+  b605 (JDict [(sec_subprocess, JList [])]) ex_system_str = Raise KeyError /\
+  b602 (JInt 3) ex_popen_str_true = Raise TypeError /\
+  b609 (JInt 0) ex_popen_str_true = Raise TypeError /\
+  b606 (JDict [(sec_no_shell, JNull)]) ex_execl = Raise TypeError.
+Proof. vm_compute. repeat split. Qed.
+
+Example still_raises_foreign_ctx :
+  (* node without `keywords` *)
+  has_shell (ex_ctx "subprocess.Popen" (ex_name "x")) = Raise AttributeError /\
+  (* context call with a positional argument, node without any: args[0] -> IndexError *)
+  b605 ex_cfg (Ctx (ex_call [] []) [] NNone [] [] (Some 1%Z) (Some 0%Z) (Some 1%Z) [1%Z]
+                   (Some (ex_call [ex_str "ls"] [])) (Some (s2p "os.system")) (Some (s2p "system"))
+                   None None None None (s2p "t.py") None) = Raise IndexError.
 Proof. vm_compute. repeat split. Qed.
